@@ -217,11 +217,12 @@ PROPS["C06"] = dict(
 
 PROPS["C08"] = dict(
     title="Labels reach metadata, selectors and templates consistently",
-    modules=["Kust.Props.C08", "Kust.Labels"],
-    theorems=["Kust.C08.no_selectors_without_flag", "Kust.C08.tables_pair_up", "Kust.C08.metadata_labels_everywhere",
+    modules=["Kust.Props.C08", "Kust.Props.C08b", "Kust.Labels"],
+    theorems=["Kust.C08.own_fields_stay_own", "Kust.C08.plain_entry_specs", "Kust.C08.meta_spec_frame", "Kust.C08.own_fields_first", "Kust.C08.entries_keep_locations", "Kust.C08.Witness.own_metadata_spec_shadows",
+              "Kust.C08.no_selectors_without_flag", "Kust.C08.tables_pair_up", "Kust.C08.metadata_labels_everywhere",
               "Kust.C08.selecting_kinds_present", "Kust.C08.selection_preserved", "Kust.C08.selection_preserved_layers",
               "Kust.C08.labels_present", "Kust.C08.labels_frame"],
-    components=["labels.build"],
+    components=["labels.build", "labels.entries"],
     oracle=True,
     n_corr={"quick": 2500, "thorough": 30000}, n_oracle={"quick": 400, "thorough": 5000},
     technique="Lean 4 proof (decide +kernel over the regenerated label field-spec tables; selection preserved under equal label directives for any number of layers) + Go/Lean correspondence of label application through real builds for 11 kinds + who-selects-whom oracle",
